@@ -1,1 +1,13 @@
 import Cutadapt.Properties.C20
+#print axioms Cutadapt.C20.incr_getCount
+#print axioms Cutadapt.C20.incr_keys_unique
+#print axioms Cutadapt.C20.stats_are_tally
+#print axioms Cutadapt.C20.stats_length
+#print axioms Cutadapt.C20.other_events_do_not_contribute
+#print axioms Cutadapt.C20.appliedTo_append
+#print axioms Cutadapt.C20.appliedTo_matched
+#print axioms Cutadapt.C20.total_matches
+#print axioms Cutadapt.C20.parts_partition
+#print axioms Cutadapt.C20.error_ranges_spec
+#print axioms Cutadapt.C20.error_ranges_last
+#print axioms Cutadapt.C20.error_ranges_entry
